@@ -9,6 +9,10 @@
 //	Lean side (oracle_c04 seal) and tampered records are fed to the real decrypt.
 //
 // phase hs   : layer 2 — real handshakes (hs.go).
+//
+// phase rx   : layer 3 — genuine records with one rewritten header field fed to the real receive
+//
+//	paths (Read / ReadFrom) of a live connection (rx.go).
 package main
 
 import (
@@ -50,6 +54,10 @@ func execute(desc string) (obs string) {
 	op, _ := hx.KV(desc, "op")
 	if op == "hs" {
 		return executeHS(desc)
+	}
+	if op == "rx" {
+		_, obs := executeRXFull(desc)
+		return obs
 	}
 	stack, _ := hx.KV(desc, "stack")
 	id := uint16(kvU64(desc, "suite"))
@@ -115,7 +123,10 @@ func executeRecord(desc, op string, tl bool, id uint16) string {
 	epoch := uint16(kvU64(desc, "epoch"))
 	typ := byte(kvU64(desc, "typ"))
 	ver := uint16(kvU64(desc, "ver"))
-	rnd := bytes.NewReader(kvHex(desc, "rand"))
+	var rnd io.Reader = bytes.NewReader(kvHex(desc, "rand"))
+	if k := int(kvU64(desc, "rchunk")); k > 0 {
+		rnd = &chunkReader{rnd, k} // short reads are legal for an io.Reader
+	}
 	pmtu := int(kvU64(desc, "pmtu"))
 	if tl {
 		v, err := tlcp.VerifNewRecordConn(id, key, iv, mac, rnd)
@@ -169,6 +180,19 @@ func executeRecord(desc, op string, tl bool, id uint16) string {
 		}
 	}
 	return "unknown-op"
+}
+
+// chunkReader returns at most k bytes per Read.
+type chunkReader struct {
+	r io.Reader
+	k int
+}
+
+func (c *chunkReader) Read(p []byte) (int, error) {
+	if len(p) > c.k {
+		p = p[:c.k]
+	}
+	return c.r.Read(p)
 }
 
 func errName(err error) string {
@@ -298,6 +322,9 @@ func (g *gen) stack() (string, bool) {
 	return "dtlcp", false
 }
 
+// rchunk: how many bytes the random source returns per Read at most (0 = as many as asked)
+func (g *gen) rchunk() int { return hx.Pick(g.r, []int{0, 0, 1, 1, 2, 5, 15}) }
+
 func (g *gen) typ() int { return hx.Pick(g.r, []int{23, 23, 23, 22, 21, 20}) }
 
 func (g *gen) schedule() {
@@ -334,7 +361,7 @@ func (g *gen) recordCase(big bool) {
 	switch g.r.Intn(4) {
 	case 0: // one call of halfConn.encrypt
 		p := g.r.Bytes(g.size(max))
-		g.emit(fmt.Sprintf("op=enc %s typ=%d ver=%d payload=%s rand=%s", base, g.typ(), 0x0101, hx.Hex(p), hx.Hex(g.r.Bytes(16))))
+		g.emit(fmt.Sprintf("op=enc %s typ=%d ver=%d payload=%s rand=%s rchunk=%d", base, g.typ(), 0x0101, hx.Hex(p), hx.Hex(g.r.Bytes(16)), g.rchunk()))
 	case 1: // writeRecordLocked (several records when the payload exceeds the limit)
 		pmtu := 0
 		n := g.size(3 * max)
@@ -352,7 +379,7 @@ func (g *gen) recordCase(big bool) {
 			nrec = 40
 		}
 		p := g.r.Bytes(n)
-		g.emit(fmt.Sprintf("op=write %s typ=%d payload=%s rand=%s pmtu=%d maxp=%d", base, typ, hx.Hex(p), hx.Hex(g.r.Bytes(16*nrec)), pmtu, mp))
+		g.emit(fmt.Sprintf("op=write %s typ=%d payload=%s rand=%s pmtu=%d maxp=%d rchunk=%d", base, typ, hx.Hex(p), hx.Hex(g.r.Bytes(16*nrec)), pmtu, mp, g.rchunk()))
 	default: // decrypt: a record sealed by the Lean side, possibly tampered with
 		g.decCase(st, tl, id, base, key, iv, mac, epoch, seq, max)
 	}
@@ -476,6 +503,24 @@ func primCases(o hx.Opts, emit func(string), oracle string) {
 			} else {
 				emit(fmt.Sprintf("op=enc %s epoch=1 seq=281474976710655 typ=23 ver=257 payload=01 rand=%s", base, zero16))
 			}
+			if !isGCM(id) { // a random source that returns one byte per Read: every IV must still be 16 fresh bytes
+				rb := make([]byte, 64)
+				for i := range rb {
+					rb[i] = byte(0xa0 + i)
+				}
+				emit(fmt.Sprintf("op=enc %s epoch=1 seq=5 typ=23 ver=257 payload=0102 rand=%s rchunk=1", base, hx.Hex(rb[:16])))
+				pm := 0
+				if st == "dtlcp" {
+					pm = 576
+				}
+				mp := maxPayload(st == "tlcp", id, pm, 23)
+				ep := 0
+				if st == "dtlcp" {
+					ep = 1
+				}
+				emit(fmt.Sprintf("op=write %s epoch=%d seq=5 typ=23 payload=%s rand=%s pmtu=%d maxp=%d rchunk=1", base, ep,
+					hx.Hex(bytes.Repeat([]byte{7}, 3*mp+1)), hx.Hex(rb), pm, mp))
+			}
 			emit(fmt.Sprintf("op=keys stack=%s suite=%d master=%s cr=%s sr=%s", st, id, hx.Hex(bytes.Repeat([]byte{1}, 48)), hx.Hex(bytes.Repeat([]byte{2}, 32)), hx.Hex(bytes.Repeat([]byte{3}, 32))))
 		}
 		emit(fmt.Sprintf("op=master stack=%s suite=57363 pre=%s cr=%s sr=%s", st, hx.Hex(bytes.Repeat([]byte{1}, 48)), hx.Hex(bytes.Repeat([]byte{2}, 32)), hx.Hex(bytes.Repeat([]byte{3}, 32))))
@@ -507,9 +552,12 @@ func main() {
 	tr := hx.NewTrace(o.Out)
 	defer tr.Close()
 	emit := func(desc string) {
-		if op, _ := hx.KV(desc, "op"); op == "hs" {
+		if op, _ := hx.KV(desc, "op"); op == "hs" || op == "rx" {
 			cfg := configPart(desc)
 			captured, obs := executeHSFull(cfg)
+			if op == "rx" {
+				captured, obs = executeRXFull(cfg)
+			}
 			if captured != "" {
 				cfg += " " + captured
 			}
@@ -528,6 +576,8 @@ func main() {
 	switch o.Phase {
 	case "hs":
 		hsCases(o, emit)
+	case "rx":
+		rxCases(o, emit)
 	default:
 		primCases(o, emit, *oracle)
 	}
